@@ -288,3 +288,238 @@ Proof.
       destruct Hfv as [Hndf _]. rewrite fnames_ftable. unfold fittable in Hndf. now rewrite map_map in Hndf.
   - contradiction.
 Qed.
+
+(* ---------------------------------------------------------------- envelopes *)
+Lemma filter_call_app : forall ms0 tail cs,
+  (forall k, In k (keys ms0) -> is_flag k = false /\ needs_escape k = false) ->
+  filter_call (ms0 ++ tail) cs =
+  match filter_call tail cs with
+  | Some (ys, cs') => Some (ms0 ++ ys, cs')
+  | None => None
+  end.
+Proof.
+  induction ms0 as [| [k v] ms0 IH]; intros tail cs H.
+  - cbn [app]. destruct (filter_call tail cs) as [[ys cs'] |]; reflexivity.
+  - cbn [app filter_call]. destruct (H k (or_introl eq_refl)) as [Hf He]. rewrite He.
+    unfold is_flag in Hf. apply orb_false_iff in Hf as [Hf H3]. apply orb_false_iff in Hf as [H1 H2].
+    rewrite H1, H2, H3. rewrite IH.
+    + destruct (filter_call tail cs) as [[ys cs'] |]; reflexivity.
+    + intros k' Hk'. apply H. now right.
+Qed.
+
+Lemma filter_call_flags : forall ow mo up,
+  filter_call (flag_members ow mo up) no_cells =
+  Some ([], mk_cells (if ow then Some true else None) (if mo then Some true else None)
+                     (if up then Some true else None)).
+Proof. intros [] [] []; reflexivity. Qed.
+
+Lemma enc_adj_object : forall t c (vs : variants) r v,
+  encoder (SAdj t c vs) r = Some v ->
+  exists ms0, v = JObj ms0 /\ forall k, In k (keys ms0) -> k = t \/ k = c.
+Proof.
+  intros t c vs r v H. rewrite encoder_adj in H. destruct r; try discriminate.
+  unfold enc_adj in H. destruct (nth_error (evtable vs) i) as [[[n k] ft] |]; [| discriminate].
+  destruct k.
+  - destruct l; [| discriminate]. inversion H. eexists. split; [reflexivity |].
+    cbn [keys map fst In]. intros k [Hk | []]. now left.
+  - destruct l; [| discriminate]. inversion H. eexists. split; [reflexivity |].
+    cbn [keys map fst In]. intros k [Hk | []]. now left.
+  - destruct (enc_fields ft l); [| discriminate]. inversion H. eexists. split; [reflexivity |].
+    cbn [keys map fst In]. intros k [Hk | [Hk | []]]; [now left | now right].
+Qed.
+
+(* decode (encode c) = c for every call whose method value fits a tagged enum shape, for all 8
+   combinations of the flags. *)
+Theorem call_roundtrip : forall tag content (vs : variants) meth ow mo up,
+  Fits (SAdj tag content vs) meth ->
+  is_flag tag = false -> is_flag content = false ->
+  needs_escape tag = false -> needs_escape content = false ->
+  exists v, enc_call (SAdj tag content vs) (mk_call meth ow mo up) = Some v /\
+            dec_call (SAdj tag content vs) v = Some (mk_call meth ow mo up).
+Proof.
+  intros tag content vs meth ow mo up HF Hft Hfc Het Hec.
+  destruct (roundtrip _ meth HF) as (v0 & Henc & Hdec).
+  destruct (enc_adj_object _ _ _ _ _ Henc) as (ms0 & -> & Hkeys).
+  exists (JObj (ms0 ++ flag_members ow mo up)). split.
+  - unfold enc_call, mk_call. now rewrite Henc.
+  - unfold dec_call. cbn [map_capable].
+    rewrite filter_call_app, filter_call_flags.
+    + rewrite app_nil_r, (Hdec Direct). cbn [c_oneway c_more c_upgrade].
+      destruct ow, mo, up; reflexivity.
+    + intros k Hk. destruct (Hkeys k Hk) as [-> | ->]; now split.
+Qed.
+
+(* flags are written only when set, after the method type's own members *)
+Theorem call_encoding_shape : forall M meth ow mo up ms0,
+  encoder M meth = Some (JObj ms0) ->
+  enc_call M (mk_call meth ow mo up) =
+  Some (JObj (ms0 ++ (if ow then [("oneway", JBool true)] else [])
+                  ++ (if mo then [("more", JBool true)] else [])
+                  ++ (if up then [("upgrade", JBool true)] else []))).
+Proof. intros M meth ow mo up ms0 H. unfold enc_call, mk_call. now rewrite H. Qed.
+
+Lemma adj_no_tag : forall m tag content vt ms,
+  ~ In tag (keys ms) -> adj_map m tag content vt ms = None.
+Proof.
+  intros m tag content vt ms Hno. unfold adj_map.
+  assert (Hnr : forall ms, ~ In tag (keys ms) ->
+            next_rel tag content ms = None \/
+            exists c rest, next_rel tag content ms = Some (false, c, rest) /\ ~ In tag (keys rest)).
+  { clear. induction ms as [| [k v] ms IH]; intros Hno; [now left |].
+    cbn [next_rel]. cbn [keys map fst In] in Hno.
+    destruct (String.eqb k tag) eqn:E.
+    - apply String.eqb_eq in E. subst. exfalso. apply Hno. now left.
+    - destruct (String.eqb k content).
+      + right. exists v, ms. split; [reflexivity |]. intros H. apply Hno. now right.
+      + apply IH. intros H. apply Hno. now right. }
+  destruct (Hnr ms Hno) as [-> | (c & rest & -> & Hrest)]; [reflexivity |].
+  destruct (Hnr rest Hrest) as [-> | (c2 & rest2 & -> & _)]; reflexivity.
+Qed.
+
+(* Error enums: decode (encode e) = e, directly and through receive_reply (unless the standard
+   error decoder, which has priority, recognises the same name). *)
+Theorem error_roundtrip : forall iface (vs : variants) e,
+  Fits (err_shape iface vs) e ->
+  exists v, enc_error (err_shape iface vs) e = Some v /\
+            dec_error (err_shape iface vs) v = Some e /\
+            forall P, decoder vs_error_shape Ref v = None ->
+                      classify (err_shape iface vs) P v = MethodError e.
+Proof.
+  intros iface vs e HF. destruct (roundtrip _ e HF) as (v & Henc & Hdec).
+  exists v. split; [exact Henc |]. split; [apply Hdec |].
+  intros P Hvs. rewrite classify_unfold, Hvs, (Hdec Ref). reflexivity.
+Qed.
+
+(* Success replies: decode (encode r) = r, directly and through receive_reply with any error type
+   of the derive's form. *)
+Theorem reply_roundtrip : forall P r,
+  Fits (reply_shape P) r ->
+  exists v, enc_reply P r = Some v /\ dec_reply P v = Some r /\
+            forall (vs : variants), classify (SAdj "error" "parameters" vs) P v = Success (reply_view r).
+Proof.
+  intros P r HF. destruct (roundtrip _ r HF) as (v & Henc & Hdec).
+  exists v. split; [exact Henc |]. split; [apply Hdec |].
+  intros vs. rewrite classify_unfold.
+  (* the encoding has no `error` member *)
+  assert (Hno : exists ms, v = JObj ms /\ ~ In "error" (keys ms)).
+  { unfold reply_shape, reply_shape_guarded in Henc, HF.
+    apply Fits_struct in HF. destruct HF as (rs & -> & _ & Hf2).
+    unfold fittable in Hf2. cbn [map fst snd] in Hf2.
+    inversion Hf2 as [| e1 rp t1 rs1 _ Hf3]. subst.
+    inversion Hf3 as [| e2 rc t2 rs2 _ Hf4]. subst.
+    inversion Hf4 as [| e3 rd t3 rs3 _ Hf5]. subst. inversion Hf5. subst.
+    rewrite encoder_struct in Henc. unfold etable in Henc. cbn [map fst snd enc_fields] in Henc.
+    repeat match type of Henc with
+           | context [match ?r with RNone => _ | _ => _ end] => destruct r
+           | context [match encoder ?s ?x with Some _ => _ | None => _ end] => destruct (encoder s x)
+           end; cbn [option_map] in Henc; try discriminate; inversion Henc; subst v;
+      (eexists; split; [reflexivity |]); cbn [keys map fst In];
+      intros H; repeat destruct H as [H | H]; try discriminate; exact H. }
+  destruct Hno as (ms & -> & Hno).
+  unfold vs_error_shape, err_shape. rewrite !decoder_adj, !adj_no_tag by exact Hno.
+  now rewrite (Hdec Ref).
+Qed.
+
+(* ---------------------------------------------------------------- "no parameters", instances *)
+Definition no_params (c : option jval) : Prop :=
+  c = None \/ c = Some JNull \/ exists x, c = Some (JObj x).
+
+(* standard org.varlink.service errors without parameters, through receive_reply *)
+Theorem standard_error_spellings : forall E P ms,
+  NoDup (keys ms) -> no_params (lookup "parameters" ms) ->
+  (lookup "error" ms = Some (JStr "org.varlink.service.PermissionDenied") ->
+   classify E P (JObj ms) = VarlinkError (RVar 4 [])) /\
+  (lookup "error" ms = Some (JStr "org.varlink.service.ExpectedMore") ->
+   classify E P (JObj ms) = VarlinkError (RVar 5 [])).
+Proof.
+  intros E P ms Hnd Hc. split; intros Ht; rewrite classify_unfold.
+  - unfold vs_error_shape, err_shape.
+    rewrite (no_parameters_spellings Ref "error" "parameters" _ ms
+               "org.varlink.service.PermissionDenied" 4 []); try assumption; try reflexivity.
+    apply str_neq. reflexivity.
+  - unfold vs_error_shape, err_shape.
+    rewrite (no_parameters_spellings Ref "error" "parameters" _ ms
+               "org.varlink.service.ExpectedMore" 5 []); try assumption; try reflexivity.
+    apply str_neq. reflexivity.
+Qed.
+
+(* field-less variants of derived error enums, through receive_reply *)
+Theorem derived_error_spellings : forall iface (vs : variants) P ms vn i (fs : fields),
+  NoDup (keys ms) -> no_params (lookup "parameters" ms) ->
+  nth_error vs i = Some (vn, KLenient, fs) ->
+  index_of (iface ++ "." ++ vn)%string (map (fun v => fst (fst v)) (qualify iface vs)) = Some i ->
+  lookup "error" ms = Some (JStr (iface ++ "." ++ vn)%string) ->
+  dec_error (err_shape iface vs) (JObj ms) = Some (RVar i []) /\
+  (decoder vs_error_shape Ref (JObj ms) = None ->
+   classify (err_shape iface vs) P (JObj ms) = MethodError (RVar i [])).
+Proof.
+  intros iface vs P ms vn i fs Hnd Hc Hn Hi Ht.
+  assert (Hq : nth_error (qualify iface vs) i = Some ((iface ++ "." ++ vn)%string, KLenient, fs)).
+  { unfold qualify. rewrite nth_error_map, Hn. reflexivity. }
+  assert (Hd : forall m, decoder (err_shape iface vs) m (JObj ms) = Some (RVar i [])).
+  { intros m. unfold err_shape.
+    apply (no_parameters_spellings m "error" "parameters" (qualify iface vs) ms _ i fs); try assumption.
+    apply str_neq. reflexivity. }
+  split; [apply Hd |]. intros Hvs. now rewrite classify_unfold, Hvs, (Hd Ref).
+Qed.
+
+Lemma lookup_filter_nonflag : forall k ms,
+  is_flag k = false -> lookup k (filter (fun m => negb (is_flag (fst m))) ms) = lookup k ms.
+Proof.
+  intros k ms Hk. induction ms as [| [k' v] ms IH]; [reflexivity |].
+  cbn [filter fst lookup]. destruct (is_flag k') eqn:E; cbn [negb].
+  - destruct (String.eqb k' k) eqn:Ek; [| exact IH].
+    apply String.eqb_eq in Ek. subst. congruence.
+  - cbn [lookup]. destruct (String.eqb k' k); [reflexivity | exact IH].
+Qed.
+
+(* the standard method org.varlink.service.GetInfo, in a call envelope with any flags, any member
+   order and any other members *)
+Theorem getinfo_spellings : forall ms ow mo up,
+  NoDup (keys ms) -> existsb (fun m => needs_escape (fst m)) ms = false ->
+  lookup "method" ms = Some (JStr "org.varlink.service.GetInfo") ->
+  no_params (lookup "parameters" ms) ->
+  spec_flag "oneway" ms = Some ow -> spec_flag "more" ms = Some mo -> spec_flag "upgrade" ms = Some up ->
+  dec_call vs_method_shape (JObj ms) = Some (mk_call (RVar 0 []) ow mo up).
+Proof.
+  intros ms ow mo up Hnd Hesc Hm Hc H1 H2 H3.
+  rewrite dec_call_spec by exact Hnd. unfold spec_call. rewrite Hesc, H1, H2, H3.
+  cbn [map_capable vs_method_shape]. unfold vs_method_shape.
+  rewrite (no_parameters_spellings Direct "method" "parameters" _ _
+             "org.varlink.service.GetInfo" 0 []); try reflexivity.
+  - apply str_neq. reflexivity.
+  - now apply keys_filter_nodup.
+  - rewrite lookup_filter_nonflag; [exact Hm | reflexivity].
+  - unfold no_params in *. rewrite lookup_filter_nonflag; [exact Hc | reflexivity].
+Qed.
+
+(* proxy methods without output parameters *)
+Theorem proxy_unit_spellings : forall (vs : variants) P ms,
+  NoDup (keys ms) -> ~ In "error" (keys ms) ->
+  no_params (lookup "parameters" ms) ->
+  (lookup "continues" ms = None \/ lookup "continues" ms = Some JNull \/
+   exists b, lookup "continues" ms = Some (JBool b)) ->
+  proxy_out true (SAdj "error" "parameters" vs) P (JObj ms) = POk RUnit.
+Proof.
+  intros vs P ms Hnd Hno Hp Hc. unfold proxy_out. rewrite classify_unfold.
+  unfold vs_error_shape, err_shape. rewrite !decoder_adj, !adj_no_tag by exact Hno.
+  pose proof (reply_decoder_spec no_output_shape ms Hnd) as Hr.
+  assert (Hb : has_memberb "error" ms = false).
+  { destruct (has_memberb "error" ms) eqn:E; [| reflexivity]. apply has_memberb_iff in E. contradiction. }
+  rewrite Hb in Hr. unfold spec_opt_member, no_output_shape in Hr.
+  assert (Hpar : exists p, match lookup "parameters" ms with
+                           | Some v => decoder (SOption (SStruct [])) Ref v
+                           | None => Some RNone end = Some p).
+  { destruct Hp as [-> | [-> | (x & ->)]]; try (eexists; reflexivity).
+    rewrite decoder_option, decoder_struct. unfold struct_map, ftable. cbn [map].
+    rewrite st_run_nil. cbn [st_finish option_map]. eexists; reflexivity. }
+  destruct Hpar as (p & Hpar). rewrite Hpar in Hr.
+  assert (Hcon : exists c, match lookup "continues" ms with
+                           | Some v => decoder (SOption SBool) Ref v
+                           | None => Some RNone end = Some c).
+  { destruct Hc as [-> | [-> | (b & ->)]]; eexists; reflexivity. }
+  destruct Hcon as (c & Hcon). rewrite Hcon in Hr.
+  destruct (decoder (reply_shape (SStruct [])) Ref (JObj ms)) as [r |]; cbn [option_map] in Hr;
+    [| discriminate].
+  inversion Hr as [Hv]. rewrite Hv. reflexivity.
+Qed.
